@@ -78,7 +78,30 @@ def sh2(prog):
             # and which return a child of the pointer's own node (canon.paths_under)
             seen = {}
             for variant in ("Reg", "Compl"):
-                rs = canon.paths_under(fn, ptr, variant, with_conds=True) or []
+                rs0 = canon.paths_under(fn, ptr, variant, with_conds=True) or []
+                rs = []
+                for r, conds in rs0:
+                    # the selection may sit in a private helper (`top_cofactor(bdd, value)`): its body, split on the value
+                    try:
+                        r_in = canon.inline_local(prog, r, lambda h: h.impl_self == fn.impl_self and "{closure" not in h.npath and h is not fn)
+                        r_in = canon.assume_variant(te, r_in, ptr, variant)
+                    except Exception:
+                        r_in = r
+
+                    def split(t_, cs_):
+                        t0 = strip(t_)
+                        if isinstance(t0, tuple) and t0 and t0[0] == "gamma" and strip(t0[1]) == valp:
+                            for lab, v_ in t0[2]:
+                                split(v_, cs_ + [(t0[1], lab, None)])
+                            return
+                        inner = [x for x in mir.subterms(t0) if x is not t0 and x[0] == "gamma" and strip(x[1]) == valp]
+                        if inner:
+                            g0 = inner[0]
+                            for lab, v_ in g0[2]:
+                                split(canon._replace(t0, lambda y: y == g0, v_), cs_ + [(g0[1], lab, None)])
+                            return
+                        rs.append((t0, cs_))
+                    split(r_in, list(conds))
                 for r, conds in rs:
                     v = None
                     for c, lab, _ in conds:
